@@ -35,8 +35,12 @@ func (a *analysis) bad(key, format string, args ...any) {
 	a.out = append(a.out, verifkit.Violation{Key: key, Text: fmt.Sprintf(format, args...)})
 }
 
-func isSource(comp string) bool { return len(comp) == 2 && comp[0] == 's' && comp[1] >= '0' && comp[1] <= '9' }
-func isDest(comp string) bool   { return len(comp) == 2 && comp[0] == 'd' && comp[1] >= '0' && comp[1] <= '9' }
+func isSource(comp string) bool {
+	return len(comp) == 2 && comp[0] == 's' && comp[1] >= '0' && comp[1] <= '9'
+}
+func isDest(comp string) bool {
+	return len(comp) == 2 && comp[0] == 'd' && comp[1] >= '0' && comp[1] <= '9'
+}
 
 // checkFlow evaluates the data-path oracles of C01-C07, C10, C12 on the event log of one execution.
 func checkFlow(p flowParams, x *verifkit.Exec) []verifkit.Violation {
@@ -84,7 +88,7 @@ func checkFlow(p flowParams, x *verifkit.Exec) []verifkit.Violation {
 		}
 		return true, ""
 	}
-	lastPos := map[string]int{}     // stored position per source in the last successful commit
+	lastPos := map[string]int{}      // stored position per source in the last successful commit
 	lastPosSeen := map[string]bool{} // the connector record exists in the store
 	opens := map[string]int{}
 	teardowns := map[string]int{}
@@ -386,7 +390,9 @@ func (a *analysis) checkDrained(when string, at int, epoch map[string]int, emitt
 		for k := range destRecv[d] {
 			keys = append(keys, k)
 		}
-		sort.Slice(keys, func(i, j int) bool { return keys[i].src < keys[j].src || keys[i].src == keys[j].src && keys[i].idx < keys[j].idx })
+		sort.Slice(keys, func(i, j int) bool {
+			return keys[i].src < keys[j].src || keys[i].src == keys[j].src && keys[i].idx < keys[j].idx
+		})
 		for _, k := range keys {
 			if _, ok := destDone[d][k]; !ok {
 				a.bad("C06/half-handled", "%s: record %d of %s reached destination %s but has no final outcome", when, k.idx, k.src, d)
@@ -421,7 +427,6 @@ func (a *analysis) checkDrained(when string, at int, epoch map[string]int, emitt
 		}
 	}
 }
-
 
 // checkRecovery is the C10 oracle: fatal causes degrade (and stay), transient ones recover within the configured
 // bounds, stopped stays stopped.
@@ -554,7 +559,6 @@ func sts2names[T any](s []T) []T { return s }
 
 func statusNames(v any) string { return fmt.Sprintf("%v", v) }
 
-
 // checkControl is the C11 oracle: start/stop/wait act on the one live run and report its true result.
 func (a *analysis) checkControl(x *verifkit.Exec) {
 	open := map[string]int{} // connector -> currently open instances
@@ -644,7 +648,6 @@ func (a *analysis) checkControl(x *verifkit.Exec) {
 		}
 	}
 }
-
 
 // waitMayBlock reports whether a WaitPipeline call is entitled to block at the end of the execution: a run is live (a
 // source was opened and not torn down since) and no stop request returned nil since that run's connectors were opened.
@@ -766,7 +769,6 @@ func restarted(evs []verifkit.Event) bool {
 	}
 	return n > 1
 }
-
 
 // checkApply is the C16 oracle: a live apply loses nothing and never applies a stale plan.
 func (a *analysis) checkApply(x *verifkit.Exec) {
